@@ -54,7 +54,10 @@ from mc.models import tdda_format_spec as spec
 
 LS, PS, NEL = chr(0x2028), chr(0x2029), chr(0x85)
 E_NFC, E_NFD = chr(0xe9), 'e' + chr(0x301)
-EPSILON = 0.25          # exact in binary; makes fuzzy != closed in the battery
+EPSILON = 0.25          # exact in binary; used on the one battery frame
+                        # ('ffuzz') that separates fuzzy from closed bounds;
+                        # all other frames use verify_df's default (0), which
+                        # compares bounds exactly
 
 # ===================================================================== frames
 # discovered start states: column families (value alphabets by index)
@@ -475,6 +478,11 @@ def gray_docs(tier):
             yield d({'type': 'real', kind: {'value': v, 'precision': 'open'}})
         for v in DATE_GRAY:
             for e in entry_forms(kind, v):
+                if isinstance(e, dict) and 'precision' in e and len(v) < 10:
+                    # keep the shortest document of every precision-related
+                    # finding a documented one (replay files show the
+                    # shortest failing case)
+                    continue
                 yield d({'type': 'date', kind: e})
         for p in PREC_GRAY:
             yield d({'type': 'real', kind: {'value': 1, 'precision': p}})
@@ -641,7 +649,7 @@ class C09(Check):
         'bounded: values, names and frames are those of the alphabets in '
         'mc/checks/c09.py; histories up to depth 3 (quick) / 4 (thorough); '
         '"any data" is the 16-frame battery (boundary values of the bound '
-        'alphabets, epsilon=0.25) plus value-level comparison of the written '
+        'alphabets; epsilon 0 except 0.25 on one frame) plus value-level comparison of the written '
         'text with the input document',
         'files are written by the harness as UTF-8 bytes; tdda reads them with '
         'open(path) in a UTF-8 locale',
@@ -859,15 +867,16 @@ class C09(Check):
             self._write('v.tdda', arg)
         for cid, df in self.frames_for(names):
             d = df.copy()
+            eps = EPSILON if cid == 'ffuzz' else None
             try:
                 if route == 'dict':
                     v = self.pdc.verify_df(d, json.loads(json.dumps(arg)),
-                                           epsilon=EPSILON)
+                                           epsilon=eps)
                 elif route == 'path':
-                    v = self.pdc.verify_df(d, 'v.tdda', epsilon=EPSILON)
+                    v = self.pdc.verify_df(d, 'v.tdda', epsilon=eps)
                 else:
                     pdv = self.pdc.PandasConstraintVerifier(
-                        d, epsilon=EPSILON, type_checking=None)
+                        d, epsilon=eps, type_checking=None)
                     pdv.repair_field_types(arg)
                     v = pdv.verify(arg, VerificationClass=self.pdc.
                                    PandasVerification, report='all')
@@ -1097,7 +1106,14 @@ class C09(Check):
                         isinstance(fields[d['field']], dict) and \
                         k in fields[d['field']]:
                     vc = value_class(fields[d['field']][k])
-                R.viol('content:%s:%s:%s' % (clause, bk(k), vc),
+                lost = clause in ('constraint-kept', 'constraint-invented')
+                if lost and spec.has_ignorable(doc):
+                    what = 'document-with-ignorable-key'
+                elif lost and spec.has_nulls(doc):
+                    what = 'document-with-null-valued-kind'
+                else:
+                    what = '%s:%s' % (bk(k), vc.split('+')[0])
+                R.viol('content:%s:%s' % (clause, what),
                        'written-text-' + clause,
                        dict(d, input=T0[:500], written=T1[:500]))
         R.out('written:%d-constraints' % nexp)
